@@ -15,6 +15,12 @@ Streams (all cases are JSON-able dicts, field "kind"):
   seed  no patching: torch.manual_seed(s); module call == apply(draw) and every spec-level check.
 On every warp: output finite, inside the input's range, same shape (Python); for order 1 the
 "monotone / pinned" clauses on the grid (Spec.mono_okb / pinned_okb).
+Robustness variants (field "alts" of a case, see the block above `relayout`): the same logical call through the
+other entry points (functional / module / keywords / torch.jit.script of the function and of the module), with
+non-contiguous / offset / stepped / expanded tensors, int32 lengths, f16 / f64 features, the same objects a second
+time, one tensor object for two parameters, element by element: identical result, arguments untouched.
+"police_only" cases carry non-finite (silent frames) or huge cells under a warp: masked cells must be exactly 0,
+finite output cells must not depend on the non-finite ones; no model comparison there.
 """
 import itertools
 import json
@@ -1339,6 +1345,8 @@ def run(chk, cases=None):
                 "call (= apply(draw)) and compares bit patterns (no warp) or resampled values (warp, torch's warp_1d_grid grids as oracle, "
                 "tolerance 2e-3) with apply_masks / apply_with_grids; mask/warp: explicit parameters; grid: warp_1d_grid order 1 vs exact "
                 "piecewise-linear grid (5e-3 px, destination >= 1e-2 px from the ends); seed: unpatched generator. "
+                "every case also names robustness variants (alts: other entry point incl. torch.jit.script, memory layout, dtype, "
+                "repeated call, aliased parameters, element alone) whose result must equal the canonical call's, arguments untouched. "
                 "non-trivial = at least one of the four parameter groups is enabled / usable")
     chk.assumptions += ["torch.rand is patched to serve the case's variates (u = k / 2^24, the grid torch.rand itself produces)",
                         "torch.linalg.solve (inside polyharmonic_spline) and grid_sample are kernel oracles: order-1 grids are compared with the exact "
